@@ -40,6 +40,7 @@ type V struct {
 	A         []V      // Arr elements / Obj member values
 	Keys      []string // Obj member names (parallel to A)
 	Unordered bool     // Obj produced from a Go map: member order is not significant
+	IsStruct  bool     // Obj produced from a Go struct (annotation only, never compared)
 }
 
 func VNil() V          { return V{K: Nil} }
